@@ -260,7 +260,8 @@ fn nontrivial(result: &[Value], nargs: usize) -> bool {
 
 pub fn exec(input: &Input) -> (Value, bool) {
     let mut m = common(input);
-    let input_s = serde_json::to_string(input).unwrap();
+    // replay input: the serde of the whole input; a TLC behaviour is rebuilt from `beh` instead (keeps the traces small)
+    let input_s = if input.src == "tlc" { String::new() } else { serde_json::to_string(input).unwrap() };
     if input.mode == "loc" {
         let args = input.args.clone();
         let (sym, project) = (AssertUnwindSafe(&input.symbol), AssertUnwindSafe(&input.project));
@@ -564,7 +565,13 @@ pub fn gen(out: &mut Out, sub: &str) {
 
 pub fn replay(run: &[Value], _sub: &str) -> Vec<Value> {
     run.iter()
-        .filter_map(|e| e["input"].as_str().and_then(|s| serde_json::from_str::<Input>(s).ok()))
+        .filter_map(|e| {
+            if e["src"] == "tlc" {
+                Some(input_from_behaviour(&e["beh"]))
+            } else {
+                e["input"].as_str().and_then(|s| serde_json::from_str::<Input>(s).ok())
+            }
+        })
         .map(|input| exec(&input).0)
         .collect()
 }
